@@ -28,4 +28,8 @@ grep -E "VIOLATION|INCONCLUSIVE|HELD|KNOWN" "$MUT/out.txt" | cut -c1-300 | head 
 grep -A1 "^VIOLATION" "$MUT/out.txt" | grep clause= | cut -c1-300 | head -3
 rm -f evidence/replay/$ID-*; cp "$MUT"/replaybak/* evidence/replay/ 2>/dev/null
 [ -f "$MUT/evidence.bak" ] && cp "$MUT/evidence.bak" evidence/$ID.json
+if [ "${EXPECT:-1}" = "0" ]; then
+  # used to try a proposed *fix*: EXPECT=0 selftest/mutate.sh C15 selftest/proposed-fix-c15-x.diff
+  if [ $RC -eq 0 ]; then echo "HELD WITH PATCH (exit 0)"; exit 0; else echo "STILL NOT HELD (exit $RC)"; tail -5 "$MUT/out.txt" | cut -c1-300; exit 1; fi
+fi
 if [ $RC -eq 1 ]; then echo "CAUGHT (exit 1)"; exit 0; else echo "MISSED (exit $RC)"; exit 1; fi
